@@ -463,7 +463,58 @@ class Sim:
         shutil.rmtree(self.root, ignore_errors=True)
 
 
+def run_bulk(case, ctx):
+    """Large workspaces: update_cache reads new state points in chunks (one chunk per 1000 ids). The
+    file must list every id, whatever the remainder of the division is, in one call."""
+    import gzip
+    import json as _json
+    import shutil
+
+    import signac
+
+    mms = []
+    n = int(case.get("n", 2003))
+    more = int(case.get("more", 0))
+    root = ctx.tmpdir("c08b")
+    try:
+        signac.init_project(root)
+        ws = os.path.join(root, "workspace")
+
+        def make(lo, hi):
+            out = {}
+            for k in range(lo, hi):
+                sp = {"bulk": k}
+                jid = oracle.job_id(sp)
+                os.mkdir(os.path.join(ws, jid))
+                with open(os.path.join(ws, jid, "signac_statepoint.json"), "w") as f:
+                    f.write(_json.dumps(sp))
+                out[jid] = sp
+            return out
+
+        model = make(0, n)
+        for rnd in range(2 if more else 1):
+            if rnd == 1:
+                model.update(make(n, n + more))
+            ret = signac.Project(root).update_cache()
+            with gzip.open(os.path.join(root, ".signac", "statepoint_cache.json.gz"), "rb") as f:
+                cached = _json.loads(f.read().decode())
+            missing = sorted(set(model) - set(cached))
+            extra = sorted(set(cached) - set(model))
+            if missing or extra:
+                mms.append(Mismatch("cache_not_exact_after_update", f"workspace of {len(model)} jobs: after update_cache() (returned {ret!r}) the cache file lacks {len(missing)} ids and lists {len(extra)} unknown ones"))
+            elif any(oracle.canon(cached[i]) != oracle.canon(model[i]) for i in list(model)[:200]):
+                mms.append(Mismatch("cache_value_wrong", "bulk cache maps an id to another state point"))
+            again = signac.Project(root).update_cache()
+            if again is not None and not (missing or extra):
+                mms.append(Mismatch("second_update_not_noop", f"second update_cache() on {len(model)} jobs returned {again!r}"))
+    finally:
+        shutil.rmtree(root, ignore_errors=True)
+    return {"mismatches": mms, "classes": ["bulk_workspace"], "nontrivial": True}
+
+
 def run_case(case, ctx):
+    if case.get("kind") == "bulk":
+        return run_bulk(case, ctx)
     idx = [i for i in case.get("filters", []) if isinstance(i, int)]
     filters = [FILTER_POOL[i % len(FILTER_POOL)] for i in idx]
     sim = Sim(ctx, filters)
@@ -558,6 +609,13 @@ CONSTRUCTED = [
 def run(ctx):
     if ctx.worker == 0:
         for c in CONSTRUCTED:
+            ctx.apply(c)
+    # workspaces large enough for chunked cache updates (2 and 3 chunks, with and without remainder)
+    bulk = [{"kind": "bulk", "n": 2003, "more": 0}, {"kind": "bulk", "n": 3001, "more": 0}, {"kind": "bulk", "n": 7, "more": 2500}, {"kind": "bulk", "n": 2000, "more": 2999}]
+    if ctx.tier == "thorough":
+        bulk += [{"kind": "bulk", "n": n, "more": m} for n, m in ((1999, 0), (2001, 0), (4999, 0), (5003, 0), (1, 2001), (2500, 2500))]
+    for i, c in enumerate(bulk):
+        if i % ctx.nworkers == ctx.worker:
             ctx.apply(c)
     L = 3 if ctx.tier == "quick" else 4
     total, complete = 0, True
